@@ -626,32 +626,244 @@ pub fn case_with_global(bytes: &[u8], sched_bytes: &[u8], ctx: &mut Ctx) -> Resu
     run_case(&case, sched_bytes, ctx, Some(999), Some(gl))
 }
 
+// ---------------------------------------------------------------- guard thread affinity
+//
+// The generated programs above only contain what the compiler accepts today: a guard cannot leave its
+// thread because `LocalRecorderGuard` is not `Send`. Whether that is (still) so is probed at compile time
+// (an inherent method on `SendProbe<T: Send>` shadows the trait fallback), and if the type system would let
+// a safe program move a guard to another thread, the lane runs exactly those programs and applies the
+// property's oracle to them: a scope ended on another thread must not make a recorder visible there, and
+// the creating thread must get its previous recorder back.
+struct SendProbe<T>(std::marker::PhantomData<T>);
+trait SendProbeFallback {
+    fn is_send(&self) -> bool {
+        false
+    }
+}
+impl<T> SendProbeFallback for SendProbe<T> {}
+impl<T: Send> SendProbe<T> {
+    fn is_send(&self) -> bool {
+        true
+    }
+}
+/// Used only when the probe says the wrapped type is `Send` anyway (so the harness does nothing safe code could not).
+struct Carry<T>(T);
+unsafe impl<T> Send for Carry<T> {}
+
+fn guard_is_send() -> bool {
+    SendProbe::<LocalRecorderGuard<'static>>(std::marker::PhantomData).is_send()
+}
+
+/// variant 0: outer closure scope r0 on A, guard r1 on A, guard dropped on B; 1: no outer scope; 2: B has its own scope r2 when it drops the guard
+fn affinity_program(variant: u8) -> Result<(), Fail> {
+    let log = new_log();
+    let r: Vec<&'static LogRecorder> = (0..3).map(|i| &*Box::leak(Box::new(LogRecorder::new(700 + i, &log)))).collect();
+    let (r0, r1, r2) = (r[0], r[1], r[2]);
+    let a_id = std::thread::current().id();
+    let body = move || -> Result<(), Fail> {
+        let g = Carry(metrics::set_default_local_recorder(r1));
+        let b = std::thread::spawn(move || {
+            let g = g;
+            let inner = move || {
+                drop(g.0);
+                counter!("affinity_b").increment(1);
+            };
+            if variant == 2 {
+                metrics::with_local_recorder(r2, inner);
+                counter!("affinity_b_after").increment(1);
+            } else {
+                inner();
+            }
+            std::thread::current().id()
+        });
+        let b_id = b.join().map_err(|_| Fail::new("panic-in-thread", "the thread that received the guard panicked".to_string()))?;
+        counter!("affinity_a").increment(1);
+        let l = log.lock().unwrap();
+        for e in l.iter() {
+            let home = if e.rec == 702 { b_id } else { a_id };
+            if e.thread != home {
+                return Err(Fail::new("local-recorder-visible-to-another-thread", format!("recorder {} was installed locally on one thread but received {:?} from another thread (guard dropped across threads, variant {})", e.rec, e.op, variant)));
+            }
+        }
+        // r1's scope has ended (its guard is gone): A's emission must go to what was in scope before it
+        let a_em: Vec<u32> = l.iter().filter(|e| matches!(&e.op, Op::Register { name, .. } if name == "affinity_a")).map(|e| e.rec).collect();
+        let want: Vec<u32> = if variant == 1 { vec![] } else { vec![700] };
+        if a_em != want {
+            return Err(Fail::new("scope-end-did-not-restore-previous-recorder", format!("after the guard of recorder 701 ended (on another thread), the creating thread's emission went to {:?}, expected {:?} (variant {})", a_em, want, variant)));
+        }
+        Ok(())
+    };
+    if variant == 1 {
+        body()
+    } else {
+        metrics::with_local_recorder(r0, body)
+    }
+}
+
+pub fn case_affinity(bytes: &[u8], _s: &[u8], ctx: &mut Ctx) -> Result<(), Fail> {
+    let variant = bytes.first().copied().unwrap_or(0) % 3;
+    ctx.case(&("guard moved to another thread and dropped there", variant));
+    if !guard_is_send() {
+        ctx.class("guard-not-send-program-rejected-by-compiler");
+        return Ok(());
+    }
+    ctx.nontrivial("guard-is-send-cross-thread-scope-end");
+    std::thread::spawn(move || affinity_program(variant)).join().map_err(|_| Fail::new("panic-in-thread", "affinity program panicked".to_string()))?
+}
+
+fn affinity(pr: &PropRun) -> crate::engine::runner::LaneReport {
+    use crate::engine::runner::{LaneReport, Violation};
+    let start = std::time::Instant::now();
+    let mut rep = LaneReport::named("guard-thread-affinity");
+    rep.exhaustive = true;
+    for v in 0..3u8 {
+        let mut ctx = Ctx::default();
+        ctx.fingerprint = Some(v as u64);
+        let r = crate::engine::runner::run_case(&case_affinity, &[v], &[], &mut ctx);
+        let desc = format!("variant {}: LocalRecorderGuard is {}Send", v, if guard_is_send() { "" } else { "not " });
+        ctx.desc = Some(desc.clone());
+        rep.account(ctx);
+        if let Err(f) = r {
+            if !pr.cfg.is_known(&f.sig) {
+                rep.violations.push(Violation { lane: "guard-thread-affinity".into(), sig: f.sig, msg: f.msg, bytes: vec![v], sched: vec![], decoded: desc });
+                break;
+            }
+        }
+    }
+    rep.notes.push(format!("LocalRecorderGuard: Send = {}", guard_is_send()));
+    rep.wall_s = start.elapsed().as_secs_f64();
+    rep
+}
+
+/// A seed-chosen use of local scopes by a thread that has no recorder otherwise (used by the C01 and C02
+/// process lanes before the global recorder is installed): every emission inside a scope must reach that
+/// scope's recorder, none outside may.
+pub fn preamble(variant: u64, who: &str) -> Result<(), String> {
+    let llog = new_log();
+    let r1: &'static LogRecorder = Box::leak(Box::new(LogRecorder::new(501, &llog)));
+    let r2: &'static LogRecorder = Box::leak(Box::new(LogRecorder::new(502, &llog)));
+    counter!("before_any_recorder").increment(1);
+    describe_gauge!("before_any_recorder", "d");
+    let mut expect_local = 0usize;
+    match variant % 6 {
+        0 => {}
+        1 => {
+            metrics::with_local_recorder(r1, || counter!("pre_local").increment(1));
+            expect_local = 1;
+        }
+        2 => {
+            let g = metrics::set_default_local_recorder(r1);
+            counter!("pre_local").increment(1);
+            drop(g);
+            expect_local = 1;
+        }
+        3 => {
+            let g = metrics::set_default_local_recorder(r1);
+            metrics::with_local_recorder(r2, || counter!("pre_local").increment(1));
+            counter!("pre_local").increment(1);
+            drop(g);
+            expect_local = 2;
+        }
+        4 => {
+            let _ = std::panic::catch_unwind(|| {
+                metrics::with_local_recorder(r1, || {
+                    counter!("pre_local").increment(1);
+                    std::panic::resume_unwind(Box::new("harness: unwinding through a local scope"));
+                })
+            });
+            expect_local = 1;
+        }
+        _ => {
+            for _ in 0..3 {
+                metrics::with_local_recorder(r1, || {
+                    let g = metrics::set_default_local_recorder(r2);
+                    counter!("pre_local").increment(1);
+                    drop(g);
+                });
+            }
+            expect_local = 3;
+        }
+    }
+    counter!("before_any_recorder").increment(1);
+    let got = llog.lock().unwrap().iter().filter(|e| matches!(&e.op, Op::Register { name, .. } if name == "pre_local")).count();
+    if got != expect_local {
+        return Err(format!("{}: preamble {} delivered {} of {} emissions to its local recorders", who, variant % 6, got, expect_local));
+    }
+    if llog.lock().unwrap().iter().any(|e| matches!(&e.op, Op::Register { name, .. } | Op::Describe { name, .. } if name == "before_any_recorder")) {
+        return Err(format!("{}: an emission outside every local scope reached a local recorder whose scope had ended", who));
+    }
+    Ok(())
+}
+
 /// Child process: installs a global double, then runs a batch of cases (single worker, since the
 /// global log is shared) in which emissions with no local recorder must reach the global one.
 pub fn child(seed: u64) -> i32 {
     let log = new_log();
     let g = LogRecorder::new(999, &log);
-    // an emission made while no recorder exists at all goes nowhere ...
-    counter!("before_any_recorder").increment(1);
-    describe_gauge!("before_any_recorder", "d");
+    // Before the installation both the main thread and a helper thread emit with no recorder at all and
+    // run a seed-chosen preamble of local scopes (closure, guard, nested, closure ending in a panic): none
+    // of it may be delivered to the global recorder, and once the installation has happened both threads'
+    // emissions outside any local scope must reach it.
+    let (to_helper, helper_rx) = std::sync::mpsc::channel::<()>();
+    let (helper_tx, from_helper) = std::sync::mpsc::channel::<Result<(), String>>();
+    let hlog = log.clone();
+    let helper = std::thread::spawn(move || {
+        let r = preamble(seed.wrapping_add(3), "helper thread");
+        let _ = helper_tx.send(r);
+        if helper_rx.recv().is_err() {
+            return;
+        }
+        let me = std::thread::current().id();
+        counter!("after_install_helper_thread").increment(1);
+        let ok = hlog.lock().unwrap().iter().any(|e| e.thread == me && e.rec == 999 && matches!(&e.op, Op::Register { name, .. } if name == "after_install_helper_thread"));
+        let _ = helper_tx.send(if ok { Ok(()) } else { Err("a thread that used (and left) local scopes before the global recorder was installed does not reach it afterwards".to_string()) });
+    });
+    if let Err(e) = preamble(seed, "main thread") {
+        println!("CHILD-FAIL pre-install-local-scope-wrong {}", e);
+        return 1;
+    }
+    match from_helper.recv() {
+        Ok(Ok(())) => {}
+        Ok(Err(e)) => {
+            println!("CHILD-FAIL pre-install-local-scope-wrong {}", e);
+            return 1;
+        }
+        Err(_) => {
+            println!("CHILD-FAIL panic-in-thread the helper thread died in its pre-install preamble");
+            return 1;
+        }
+    }
     if metrics::set_global_recorder(g).is_err() {
         println!("harness: could not install the global double");
         return 2;
     }
-    // ... and the same thread's emissions reach the global recorder once it is installed
+    // ... and the same threads' emissions reach the global recorder once it is installed
     {
         let before = log.lock().unwrap().len();
         counter!("after_install_same_thread").increment(1);
         let l = log.lock().unwrap();
-        if l.iter().any(|e| matches!(&e.op, Op::Register { name, .. } | Op::Describe { name, .. } if name == "before_any_recorder")) {
-            println!("CHILD-FAIL pre-install-emission-delivered an emission made before any recorder existed was delivered");
+        if l.iter().any(|e| matches!(&e.op, Op::Register { name, .. } | Op::Describe { name, .. } if name == "before_any_recorder" || name == "pre_local")) {
+            println!("CHILD-FAIL pre-install-emission-delivered an emission made before the global recorder existed was delivered to it");
             return 1;
         }
         if !(l.len() > before && matches!(&l[before].op, Op::Register { name, .. } if name == "after_install_same_thread")) {
-            println!("CHILD-FAIL emission-after-install-not-delivered the thread that emitted before the global recorder was installed does not reach it afterwards");
+            println!("CHILD-FAIL emission-after-install-not-delivered the thread that emitted (preamble {}) before the global recorder was installed does not reach it afterwards", seed % 6);
             return 1;
         }
     }
+    let _ = to_helper.send(());
+    match from_helper.recv() {
+        Ok(Ok(())) => {}
+        Ok(Err(e)) => {
+            println!("CHILD-FAIL emission-after-install-not-delivered {} (preamble {})", e, seed.wrapping_add(3) % 6);
+            return 1;
+        }
+        Err(_) => {
+            println!("CHILD-FAIL panic-in-thread the helper thread died after the installation");
+            return 1;
+        }
+    }
+    let _ = helper.join();
     let _ = GLOBAL_LOG.set(log);
     let cfg = RunCfg { tier: crate::engine::runner::Tier::Quick, seed, scale: 1.0, strict: false, known: vec!["dispatch-after-forget".into(), "restore-after-non-lifo-drop".into()] };
     let rep = run_lane(&cfg, "C01", &Lane { name: "with-global-recorder", cases: 1500, max_len: 160, sched_len: 48, workers: 1, f: &case_with_global });
@@ -671,6 +883,7 @@ pub fn run(cfg: &RunCfg, replay: Option<&str>) -> i32 {
         crate::engine::child::replay_child("C01", b)
     };
     pr.register("global-recorder-processes", &child_replay);
+    pr.register("guard-thread-affinity", &case_affinity);
     if let Some(f) = replay {
         return pr.replay(f);
     }
@@ -683,6 +896,8 @@ pub fn run(cfg: &RunCfg, replay: Option<&str>) -> i32 {
     let r = run_lane(&c, "C01", &Lane { name: "programs", cases: c.cases(60_000, 3_000_000), max_len: 160, sched_len: 48, workers: 0, f: &case_local });
     pr.push(r);
     let r = exhaustive(&pr);
+    pr.push(r);
+    let r = affinity(&pr);
     pr.push(r);
     let r = crate::engine::child::run_children(&pr, "C01", "global-recorder-processes", pr.cfg.cases(12, 300), |_| "1500 generated programs with a global recorder double installed first".to_string());
     pr.push(r);
